@@ -3,11 +3,13 @@
 package core
 
 import (
+	"bytes"
 	"crypto/sha1"
 	"encoding/hex"
 	"encoding/json"
 	"fmt"
 	"os"
+	"os/exec"
 	"path/filepath"
 	"sort"
 	"strconv"
@@ -26,11 +28,41 @@ type Prop struct {
 	Replay func(c *Ctx, raw json.RawMessage) error
 	// SelfTest: broken-variant TLC runs must fail, corrupted records must be rejected.
 	SelfTest func(c *Ctx) error
+	// Sub runs a helper in a child process (`vcheck <id> sub args...`): used for drivers that
+	// may crash the whole process (a Go panic in a goroutine cannot be recovered by the parent).
+	Sub func(args []string) int
+}
+
+// RunSub executes this binary as `<id> sub args...` and returns stdout, the tail of stderr and
+// the exit code (-1 = could not start / killed by timeout).
+func RunSub(id string, timeout time.Duration, args ...string) (stdout, stderr string, code int) {
+	cmd := exec.Command(os.Args[0], append([]string{id, "sub"}, args...)...)
+	var ob, eb bytes.Buffer
+	cmd.Stdout = &ob
+	cmd.Stderr = &eb
+	if err := cmd.Start(); err != nil {
+		return "", err.Error(), -1
+	}
+	timer := time.AfterFunc(timeout, func() { cmd.Process.Kill() })
+	err := cmd.Wait()
+	timer.Stop()
+	code = 0
+	if err != nil {
+		code = -1
+		if ee, ok := err.(*exec.ExitError); ok {
+			code = ee.ExitCode()
+		}
+	}
+	se := eb.String()
+	if len(se) > 6000 {
+		se = se[:3000] + "\n...\n" + se[len(se)-3000:]
+	}
+	return ob.String(), se, code
 }
 
 var registry = map[string]*Prop{}
 
-func Register(p *Prop) { registry[p.ID] = p }
+func Register(p *Prop)       { registry[p.ID] = p }
 func Lookup(id string) *Prop { return registry[id] }
 func IDs() []string {
 	var ids []string
